@@ -7,6 +7,7 @@ import (
 	"errors"
 	"fmt"
 	"io"
+	"math"
 	"math/rand"
 	"runtime"
 	"sync"
@@ -1107,6 +1108,21 @@ func (s *Store[K, V]) Recover(version uint64, reader io.Reader) error {
 	defer s.policyMu.Unlock()
 	metaSeen := false
 	sameSize := false
+	// what a deadline of the saving cache has to be moved by to mean the same
+	// wall-clock instant on this cache's clock; restored reports the translated
+	// deadline and whether the entry is still alive
+	var originShift int64
+	restored := func(expire int64) (int64, bool) {
+		if expire == 0 {
+			return 0, true
+		}
+		if originShift > 0 && expire > math.MaxInt64-originShift {
+			return math.MaxInt64, true
+		}
+		expire += originShift
+		// at or before this cache's own origin: passed long ago
+		return expire, expire > 0 && expire >= s.timerwheel.clock.NowNano()
+	}
 	// into a cache of another size an entry is admitted only while its cost still
 	// fits the region; the first that does not closes the region, so what is
 	// restored is a prefix from the most recently used end and never more than fits
@@ -1154,16 +1170,11 @@ func (s *Store[K, V]) Recover(version uint64, reader io.Reader) error {
 				return VersionMismatch
 			}
 			metaSeen = true
-			s.timerwheel.clock.SetStart(m.StartNano)
-			// the cached "now" was taken against the old origin: refresh it, or until
-			// the next tick reads trust a clock that is behind by the whole uptime of
-			// the saved cache and serve restored entries past their deadline
-			s.timerwheel.clock.RefreshNowCache()
-			// a receiving cache that has been up for longer than the saved one did:
-			// the adopted clock now reads less than the wheel's position
-			if now := s.timerwheel.clock.NowNano(); now < s.timerwheel.nanos {
-				s.timerwheel.rewind(now)
-			}
+			// deadlines in the stream count from the saving cache's clock origin.
+			// This cache keeps its own origin - the entries it already holds, and
+			// their copies in a secondary cache, are measured against it - and
+			// every restored deadline is translated instead
+			originShift = m.StartNano - s.timerwheel.clock.Start.UnixNano()
 			s.policy.sketch.EnsureCapacity(uint(m.Total))
 			if m.Capacity == s.policy.capacity && m.WindowCap >= 1 && m.WindowCap < m.Capacity {
 				// same size: the regions were filled under the adaptive split saved
@@ -1190,10 +1201,11 @@ func (s *Store[K, V]) Recover(version uint64, reader io.Reader) error {
 				if err != nil {
 					return err
 				}
-				expire := pentry.Expire
-				if expire != 0 && expire < s.timerwheel.clock.NowNano() {
+				expire, alive := restored(pentry.Expire)
+				if !alive {
 					continue
 				}
+				pentry.Expire = expire
 				if room(pentry.PolicyWeight) && (sameSize || (!windowFull && s.policy.window.Len()+int(pentry.PolicyWeight) <= int(s.policy.window.capacity))) {
 					entry := pentry.entry()
 					s.policy.window.PushBack(entry)
@@ -1217,10 +1229,11 @@ func (s *Store[K, V]) Recover(version uint64, reader io.Reader) error {
 				if err != nil {
 					return err
 				}
-				expire := pentry.Expire
-				if expire != 0 && expire < s.timerwheel.clock.NowNano() {
+				expire, alive := restored(pentry.Expire)
+				if !alive {
 					continue
 				}
+				pentry.Expire = expire
 				l1 := s.policy.slru.protected
 				l2 := s.policy.slru.probation
 				if room(pentry.PolicyWeight) && (sameSize || (!probationFull && l1.len+l2.len+pentry.PolicyWeight <= int64(s.policy.slru.maxsize))) {
@@ -1246,10 +1259,11 @@ func (s *Store[K, V]) Recover(version uint64, reader io.Reader) error {
 				if err != nil {
 					return err
 				}
-				expire := pentry.Expire
-				if expire != 0 && expire < s.timerwheel.clock.NowNano() {
+				expire, alive := restored(pentry.Expire)
+				if !alive {
 					continue
 				}
+				pentry.Expire = expire
 				l := s.policy.slru.protected
 				if room(pentry.PolicyWeight) && (sameSize || (!protectedFull && l.len+pentry.PolicyWeight <= int64(l.capacity))) {
 					entry := pentry.entry()
